@@ -559,6 +559,9 @@ class Evaluator:
                         if v[2] == "Break" and a[2] == "Err":
                             v = a
                             continue
+                    if v[0] == "downcast" and v[1][0] == "try" and v[1][1][0] == "propagate" and v[2] == "Break" and e["i"] == 0:
+                        v = v[1][1]
+                        continue
                     if v[0] == "downcast" and v[1][0] == "agg" and v[1][2] == v[2]:
                         a = v[1]
                         if e["i"] < len(a[4]):
@@ -640,6 +643,11 @@ class Evaluator:
                 want = "Continue" if v[1][2] == "Ok" else "Break"
                 for d, nme in rv.get("variants") or []:
                     if nme == want:
+                        return const("int", d)
+            if v[0] == "try" and v[1][0] == "propagate":
+                # `?` applied to an error that an (inlined) callee already propagated: it breaks again
+                for d, nme in rv.get("variants") or []:
+                    if nme == "Break":
                         return const("int", d)
             if v[0] == "tryopt":
                 ren = {"Continue": "Some", "Break": "None"}
@@ -1021,13 +1029,21 @@ class Walker:
                     if a.get("k") in ("copy", "move") and not a["place"]["p"] and strip_lt(self.body.locals[a["place"]["l"]]["ty"]).startswith("&mut "):
                         # `&mut it` of a local that itself holds no mutable access to anything (an iterator over
                         # shared references): whatever the callee writes, it is that local
-                        dd = se.defs.get(a["place"]["l"], [])
-                        if len(dd) == 1 and dd[0][0] == "stmt":
+                        cur_, inert = a["place"]["l"], False
+                        for _ in range(4):
+                            dd = se.defs.get(cur_, [])
+                            if len(dd) != 1 or dd[0][0] != "stmt":
+                                break
                             rv_ = self.body.blocks[dd[0][1]]["stmts"][dd[0][2]]["rv"]
+                            if rv_.get("k") == "ref" and rv_["place"]["p"] == ["deref"]:
+                                cur_ = rv_["place"]["l"]  # a reborrow `&mut *r`
+                                continue
                             if rv_.get("k") == "ref" and not rv_["place"]["p"]:
                                 lty = strip_lt(self.body.locals[rv_["place"]["l"]]["ty"])
-                                if "&mut" not in lty and "Cell" not in lty and "*mut" not in lty and rv_["place"]["l"] > self.body.argc:
-                                    continue
+                                inert = "&mut" not in lty and "Cell" not in lty and "*mut" not in lty and rv_["place"]["l"] > self.body.argc
+                            break
+                        if inert:
+                            continue
                         ms = self.modset(rr_, ai + 1) if (self.modset is not None and rr_ is not None) else None
                         if ms is None or (set(ms) & used):
                             return False
@@ -1275,7 +1291,7 @@ class Walker:
                                 root = root[1]
                             if root == args[0]:
                                 val = ("vec", hvv[2])
-                if rr is not None and short(rr) in ("Option::map", "Option::and_then", "Option::ok_or_else", "Option::unwrap_or_else", "Option::is_some_and", "Option::is_none_or") and len(args) == 2 and args[1][0] == "closure" and self._desugar_option_adaptor(short(rr), args, t, st, path, visited, bb):
+                if rr is not None and short(rr) in ("Option::map", "Option::and_then", "Option::ok_or_else", "Option::unwrap_or_else", "Option::is_some_and", "Option::is_none_or", "Option::filter") and len(args) == 2 and args[1][0] == "closure" and self._desugar_option_adaptor(short(rr), args, t, st, path, visited, bb):
                     return
                 if rr is not None and short(rr) == "Option::map_or" and len(args) == 3 and args[2][0] == "closure" and self._desugar_option_adaptor("Option::map_or", [args[0], args[2], args[1]], t, st, path, visited, bb):
                     return
@@ -1393,7 +1409,7 @@ class Walker:
         if strip_lt(cb.locals[1]["ty"]).startswith("&"):
             env1 = ("ref", args[1])
         payload = self.ev._project1(("downcast", x, "Some"), {"f": "0", "i": 0, "adt": "std::option::Option", "ty": ""})
-        sub = Walker(cb, self.facts, impure=self.impure, max_paths=64, init_env=({1: env1} if on_none else {1: env1, 2: payload}), max_visits=1)
+        sub = Walker(cb, self.facts, impure=self.impure, max_paths=64, init_env=({1: env1} if on_none else {1: env1, 2: (("ref", payload) if name == "Option::filter" else payload)}), max_visits=1)
         try:
             sub.run()
         except Exception:
@@ -1447,6 +1463,21 @@ class Walker:
                         p2.guards.append((a, oo))
                 else:
                     p2.effects.extend(q.effects)
+                    if name == "Option::filter":
+                        # Some(v) kept iff the predicate holds
+                        keep = [q.ret == TRUE] if q.ret in (TRUE, FALSE) else ([st2["known"][q.ret]] if st2["known"].get(q.ret) in (True, False) else [True, False])
+                        for kp in keep:
+                            st3 = {"env": dict(st2["env"]), "heap": dict(st2["heap"]), "known": dict(st2["known"]), "epoch": st2["epoch"], "subst": dict(st2["subst"]), "mutn": st2.get("mutn", 0)}
+                            p3 = Path()
+                            p3.guards = list(p2.guards)
+                            p3.effects = list(p2.effects)
+                            p3.blocks = list(p2.blocks)
+                            if q.ret not in (TRUE, FALSE) and q.ret not in st3["known"]:
+                                st3["known"][q.ret] = kp
+                                p3.guards.append((q.ret, kp))
+                            self._assign(t["dest"], x if kp else ("enumc", "std::option::Option", "None"), st3, p3, bb)
+                            self._go(t["t"], st3, p3, visited)
+                        continue
                     if name in ("Option::and_then", "Option::unwrap_or_else", "Option::is_some_and", "Option::is_none_or", "Option::map_or"):
                         val = q.ret
                     elif name == "Option::ok_or_else":
